@@ -176,18 +176,19 @@ Definition member_name (h : shead) (i : nat) (m : mhead) : string :=
 
 (* ------------------------------------------------------------- member ids *)
 
-(* type_support.rs:56-99: hashid wins; otherwise Final/Appendable use the member
-   index (an explicit id is IGNORED), Mutable uses the explicit id or next_auto_id;
-   next_auto_id := id + 1 after every member that is not hashed. *)
+(* type_support.rs:57-104: hashid wins; otherwise an explicit id is the id in every
+   extensibility kind (fix 7ee9e78); otherwise Final/Appendable use the member index and
+   Mutable uses next_auto_id; next_auto_id := id + 1 after every member that is not
+   hashed (not monotonic: a lower explicit id resets it). *)
 Fixpoint struct_ids_from (h : shead) (idx : nat) (next : Z) (ms : list mhead) : list Z :=
   match ms with
   | [] => []
   | m :: r =>
       let id :=
         if m_hashid m then hash_id (member_name h idx m)
-        else match s_ext h with
-             | Mutable => match m_id m with Some i => i | None => next end
-             | _ => Z.of_nat idx
+        else match m_id m with
+             | Some i => i
+             | None => match s_ext h with Mutable => next | _ => Z.of_nat idx end
              end in
       let next' := if m_hashid m then next else id + 1 in
       id :: struct_ids_from h (S idx) next' r
@@ -253,12 +254,22 @@ Record tdesc : Type := mkTD {
 
 Definition tc_of (o : option tck) : tck := match o with Some k => k | None => TcDiscard end.
 
-Fixpoint struct_mdescs (h : shead) (idx : nat) (ms : list (mhead * ty)) (ids : list Z) : list mdesc :=
+(* the entries of xs that belong to members which are not non_serialized *)
+Fixpoint published {A} (hs : list mhead) (xs : list A) : list A :=
+  match hs, xs with
+  | m :: hs', x :: xs' => if m_ns m then published hs' xs' else x :: published hs' xs'
+  | _, _ => []
+  end.
+
+(* a non_serialized member is not published (fix 0840b55); `index` is the position among
+   the published members, the name of a tuple field is its position among all fields *)
+Fixpoint struct_mdescs (h : shead) (idx : nat) (pidx : nat) (ms : list (mhead * ty)) (ids : list Z) : list mdesc :=
   match ms, ids with
   | (m, t) :: r, id :: ids' =>
-      mkMD (member_name h idx m) id (Z.of_nat idx) (sig_of t)
-           (m_key m) (m_optional m) (m_key m) [] false (tc_of (m_tc m))
-      :: struct_mdescs h (S idx) r ids'
+      if m_ns m then struct_mdescs h (S idx) pidx r ids'
+      else mkMD (member_name h idx m) id (Z.of_nat pidx) (sig_of t)
+                (m_key m) (m_optional m) (m_key m) [] false (tc_of (m_tc m))
+           :: struct_mdescs h (S idx) (S pidx) r ids'
   | _, _ => []
   end.
 
@@ -285,7 +296,7 @@ Definition describe (t : ty) : option tdesc :=
   match t with
   | TStruct h ms =>
       Some (mkTD K_STRUCTURE (tname (s_rname h) (s_cname h)) (s_ext h) (s_nested h) None
-                 (struct_mdescs h 0 ms (struct_ids h (map fst ms))))
+                 (struct_mdescs h 0 0 ms (struct_ids h (map fst ms))))
   | TEnum e =>
       (* type_support.rs:593-612: member_list is empty, the literals are not published *)
       Some (mkTD K_ENUM (tname (e_rname e) (e_cname e)) Final (e_nested e)
